@@ -5,6 +5,8 @@
 import Model.LoD
 import Lemmas.LoD
 import Lemmas.LoDEdit
+import Lemmas.LoDSort
+import Lemmas.LoDKeys
 
 namespace DI.C15
 
@@ -88,5 +90,175 @@ theorem dict_set_del_local (d : Dict) (k k' : String) (v : Val) (h : k' ≠ k) :
 
 example : insertPos 3 (-1) = 2 ∧ insertPos 3 5 = 3 ∧ insertPos 3 (-7) = 0 := by decide
 example : (tail [⟨0, []⟩, ⟨1, []⟩, ⟨2, []⟩] 0).length = 0 := by decide
+
+/-! ### sort: one stable lexicographic sort, None last -/
+
+/-- the specification order, spelled out: `specLe1 desc` puts None after everything in BOTH
+    directions and otherwise is the value order (ascending) or its converse (descending);
+    `specLex keys` compares items lexicographically over the `(key, descending?)` pairs, reading
+    `item[key]` with `keyVal`. -/
+theorem sort_spec_order_def (desc : Bool) (a b : Val) (k : String) (ks : List (String × Bool)) (x y : Item) :
+    specLe1 desc a .none = true ∧ specLe1 desc .none b = (b == .none) ∧
+    (a ≠ .none → b ≠ .none → specLe1 desc a b = if desc then Val.le b a else Val.le a b) ∧
+    specLex [] x y = true ∧
+    specLex ((k, desc) :: ks) x y =
+      (if specLe1 desc (keyVal k x) (keyVal k y) && specLe1 desc (keyVal k y) (keyVal k x)
+       then specLex ks x y else specLe1 desc (keyVal k x) (keyVal k y)) ∧
+    keyVal k x = (x.kv.get? k).getD .none :=
+  ⟨specLe1_none_right desc a, specLe1_none_left desc b, specLe1_of_ne_none desc a b, rfl, rfl, rfl⟩
+
+/-- no order hypothesis is needed: the value order of the model is a linear order, hence every
+    one-key order is one and the lexicographic order is a total preorder. -/
+theorem sort_order_total_preorder (desc : Bool) (keys : List (String × Bool)) :
+    LinOrd Val.le ∧ LinOrd (specLe1 desc) ∧ PreOrd (specLex keys) :=
+  ⟨Val.le_linOrd, specLe1_linOrd desc, specLex_pre keys⟩
+
+/-- one pass `sorted(data, key=sort_key, reverse=dir<0)` is the stable sort by the one-key order —
+    also in the descending pass: Python's `reverse=True` keeps the input order of equal elements,
+    which `argsortPy` models by flipping the comparison, so ties are NOT reversed. -/
+theorem sort_pass_is_stable_sort (xs : List Item) (k : String) (desc : Bool) :
+    sortPass xs k desc = xs.mergeSort (fun x y => specLe1 desc (keyVal k x) (keyVal k y)) :=
+  sortPass_eq_mergeSort xs k desc
+
+/-- **sort is a stable ordering by the given keys and directions with None last**: the chain of
+    stable passes (last key first) equals ONE stable sort by the lexicographic specification order,
+    for every item list, every key list and every None pattern. -/
+theorem sort_stable_lexicographic (xs : List Item) (keys : List (String × Bool)) :
+    LoD.sort xs keys = xs.mergeSort (specLex keys) ∧
+    LoD.sort xs keys = gather xs (argsort (specLex keys) xs) :=
+  ⟨sort_eq_mergeSort xs keys, sort_eq_gather_argsort xs keys⟩
+
+/-- corollaries: the result is pairwise ordered by `specLex`; two items in input order that
+    `specLex` does not put the other way round stay in that order; the items `specLex` does not
+    separate from a given one — exactly those with equal values under every sort key — appear in
+    their original relative order. -/
+theorem sort_sorted_and_stable (xs : List Item) (keys : List (String × Bool)) :
+    (LoD.sort xs keys).Pairwise (fun x y => specLex keys x y) ∧
+    (∀ x y, [x, y].Sublist xs → specLex keys x y = true → [x, y].Sublist (LoD.sort xs keys)) ∧
+    (∀ a, (LoD.sort xs keys).filter (eqv (specLex keys) a) = xs.filter (eqv (specLex keys) a)) ∧
+    (∀ x y, eqv (specLex keys) x y = true ↔ extract (keys.map (·.1)) x = extract (keys.map (·.1)) y) ∧
+    (∀ a, (LoD.sort xs keys).filter (fun x => extract (keys.map (·.1)) a == extract (keys.map (·.1)) x) =
+      xs.filter (fun x => extract (keys.map (·.1)) a == extract (keys.map (·.1)) x)) :=
+  ⟨sort_sorted xs keys, fun x y h hle => sort_stable_pair xs keys x y h hle,
+   fun a => sort_stable_class xs keys a, fun x y => eqv_specLex_iff x y keys,
+   fun a => sort_stable_equal_keys xs keys a⟩
+
+/-- None last in both directions: in the result no item whose first sort key is None comes before
+    an item whose first sort key is not None, whatever the direction `d`. -/
+theorem sort_none_last (xs : List Item) (k : String) (d : Bool) (ks : List (String × Bool)) (x y : Item)
+    (h : [x, y].Sublist (LoD.sort xs ((k, d) :: ks))) (hx : keyVal k x = .none) : keyVal k y = .none :=
+  LoD.sort_none_last xs k d ks x y h hx
+
+/-! ### select / rename / modify_if change only the named keys -/
+
+/-- select: length preserved; every new item carries the fresh identity, has exactly the keys of
+    `keys` the old item had, in the order of `keys` (first occurrence), with the old values. -/
+theorem select_only_named_keys (xs : List Item) (keys : List String) (fresh : List Nat)
+    (hl : fresh.length = xs.length) :
+    (select xs keys fresh).length = xs.length ∧
+    ∀ i (hi : i < xs.length), ∃ h' : i < (select xs keys fresh).length,
+      ((select xs keys fresh)[i]).tag = fresh[i]'(by omega) ∧
+      ((select xs keys fresh)[i]).kv.keys =
+        (keys.filter (fun k => decide (k ∈ xs[i].kv.keys))).eraseDups ∧
+      ∀ k, ((select xs keys fresh)[i]).kv.get? k = if k ∈ keys then xs[i].kv.get? k else none :=
+  ⟨select_length xs keys fresh hl, fun i hi => select_spec xs keys fresh hl i hi⟩
+
+/-- the rename map: keys not mentioned as a `from` keep their name; for a mentioned key the LAST
+    pair `(to, from)` naming it wins (`renames = {v: k for k, v in to_from_pairs.items()}`). -/
+theorem rename_map_spec (toFrom pre post : List (String × String)) (to k : String) :
+    (k ∉ toFrom.map (·.2) → renameOf toFrom k = k) ∧
+    (k ∉ post.map (·.2) → renameOf (pre ++ (to, k) :: post) k = to) :=
+  ⟨renameOf_not_mentioned toFrom k, renameOf_last pre post to k⟩
+
+/-- rename: length preserved; every new item carries the fresh identity and is
+    `dict(zip(renamed keys, values))`: keys = the renamed keys in first-occurrence order, the value
+    under a new name = the value of the LAST old key mapped to it; when the renamed keys do not
+    collide this is the old entry list with only the names changed (same values, same order). -/
+theorem rename_only_names (xs : List Item) (toFrom : List (String × String)) (fresh : List Nat)
+    (hl : fresh.length = xs.length) :
+    (rename xs toFrom fresh).length = xs.length ∧
+    ∀ i (hi : i < xs.length), ∃ h' : i < (rename xs toFrom fresh).length,
+      ((rename xs toFrom fresh)[i]).tag = fresh[i]'(by omega) ∧
+      ((rename xs toFrom fresh)[i]).kv.keys = (xs[i].kv.keys.map (renameOf toFrom)).eraseDups ∧
+      (∀ k', ((rename xs toFrom fresh)[i]).kv.get? k' =
+        (xs[i].kv.reverse.find? (fun e => renameOf toFrom e.1 == k')).map (·.2)) ∧
+      ((xs[i].kv.keys.map (renameOf toFrom)).Nodup →
+        ((rename xs toFrom fresh)[i]).kv = xs[i].kv.map (fun e => (renameOf toFrom e.1, e.2))) :=
+  ⟨rename_length xs toFrom fresh hl, fun i hi => rename_spec xs toFrom fresh hl i hi⟩
+
+/-- modify_if: items whose predicate is false are returned unchanged (same object, same dict);
+    for the others only `key` changes (same object, other keys keep value and position). -/
+theorem modify_if_only_selected (xs : List Item) (mask : List Bool) (key : String) (vals : List Val)
+    (hm : mask.length = xs.length) (hv : vals.length = xs.length) :
+    (modifyIf xs mask key vals).length = xs.length ∧
+    ∀ i (hi : i < xs.length), ∃ h' : i < (modifyIf xs mask key vals).length,
+      (mask[i]'(by omega) = false → (modifyIf xs mask key vals)[i] = xs[i]) ∧
+      (mask[i]'(by omega) = true →
+        ((modifyIf xs mask key vals)[i]).tag = xs[i].tag ∧
+        ((modifyIf xs mask key vals)[i]).kv.get? key = some (vals[i]'(by omega)) ∧
+        (∀ k', k' ≠ key → ((modifyIf xs mask key vals)[i]).kv.get? k' = xs[i].kv.get? k') ∧
+        ((modifyIf xs mask key vals)[i]).kv.keys =
+          if key ∈ xs[i].kv.keys then xs[i].kv.keys else xs[i].kv.keys ++ [key]) :=
+  ⟨modifyIf_length xs mask key vals hm hv, fun i hi => modifyIf_spec xs mask key vals hm hv i hi⟩
+
+/-- `dict(pairs)`: keys in first-occurrence order, each with the value of its last occurrence;
+    the identity on pair lists without repeated keys. -/
+theorem dict_of_pairs_spec (ps : List (String × Val)) (k : String) :
+    (Dict.ofPairs ps).keys = (ps.map (·.1)).eraseDups ∧
+    (Dict.ofPairs ps).get? k = (ps.reverse.find? (fun p => p.1 == k)).map (·.2) ∧
+    ((ps.map (·.1)).Nodup → Dict.ofPairs ps = ps) :=
+  ⟨Dict.ofPairs_keys ps, Dict.ofPairs_get? ps k, Dict.ofPairs_nodup ps⟩
+
+/-! ### slicing and `*` -/
+
+/-- `self[a:b]` (0 ≤ a, b) is the list of the items at positions `a ≤ p < min(b, len)` in order. -/
+theorem slice_like_list (xs : List Item) (a b : Nat) :
+    slice xs a b = ((List.range xs.length).filter (fun p => decide (a ≤ p ∧ p < b))).map (fun p => xs[p]!) ∧
+    (slice xs a b).length = min b xs.length - a ∧ (slice xs a b).Sublist xs ∧
+    ∀ i (h : i < (slice xs a b).length), ∃ h' : a + i < xs.length, (slice xs a b)[i] = xs[a + i] :=
+  ⟨slice_eq_positions xs a b, slice_length xs a b, slice_sublist xs a b,
+   fun i h => ⟨by rw [slice_length] at h; omega, slice_get xs a b i h⟩⟩
+
+/-- `self * n` is n copies in order: position `i` holds item `i mod len`. -/
+theorem mul_like_list (xs : List Item) (n : Nat) :
+    mul xs 0 = [] ∧ mul xs (n + 1) = xs ++ mul xs n ∧ (mul xs n).length = n * xs.length ∧
+    ∀ i (h : i < (mul xs n).length), ∃ h' : i % xs.length < xs.length, (mul xs n)[i] = xs[i % xs.length] :=
+  ⟨mul_zero xs, mul_succ xs n, mul_length xs n, fun i h => ⟨mul_mod_lt xs n i h, mul_get xs n i h⟩⟩
+
+/-! ### non-vacuity: concrete instances -/
+
+-- None last in both directions; descending really reverses the value order
+example : specLe1 false (.i 1) .none = true ∧ specLe1 false .none (.i 1) = false ∧
+    specLe1 true (.i 1) .none = true ∧ specLe1 true .none (.i 1) = false ∧
+    specLe1 true (.i 2) (.i 1) = true ∧ specLe1 true (.i 1) (.i 2) = false := by decide
+
+-- descending `a`, then ascending `b`; None last; the tie (tags 2, 3 on `a`) is broken by `b`
+example : (LoD.sort [⟨0, [("a", .i 2), ("b", .i 1)]⟩, ⟨1, [("a", .none), ("b", .i 1)]⟩,
+      ⟨2, [("a", .i 3), ("b", .i 1)]⟩, ⟨3, [("a", .i 3), ("b", .i 0)]⟩]
+    [("a", true), ("b", false)]).map (·.tag) = [3, 2, 0, 1] := by
+  simp +decide [LoD.sort, sortPass, argsortPy, argsort, sortPairs, gather, List.mergeSort, passLe, Val.le,
+    Dict.get?, List.MergeSort.Internal.splitInTwo, List.zipIdx]
+
+-- a descending pass keeps the input order of equal elements (tags 0 and 2 tie on `a`)
+example : (LoD.sort [⟨0, [("a", .i 3)]⟩, ⟨1, [("a", .i 5)]⟩, ⟨2, [("a", .i 3)]⟩] [("a", true)]).map (·.tag)
+    = [1, 0, 2] := by
+  simp +decide [LoD.sort, sortPass, argsortPy, argsort, sortPairs, gather, List.mergeSort, passLe, Val.le,
+    Dict.get?, List.MergeSort.Internal.splitInTwo, List.zipIdx]
+
+-- select: order of `keys`, repeated key once, absent key skipped, fresh identity
+example : select [⟨7, [("a", .i 1), ("b", .i 2), ("c", .i 3)]⟩] ["c", "z", "a", "c"] [9]
+    = [⟨9, [("c", .i 3), ("a", .i 1)]⟩] := by decide
+
+-- rename without collision (a → x) and with a collision (a → b while b stays): first position,
+-- last value — what `dict(zip(keys, values))` does
+example : rename [⟨7, [("a", .i 1), ("b", .i 2)]⟩] [("x", "a")] [9] = [⟨9, [("x", .i 1), ("b", .i 2)]⟩] ∧
+    rename [⟨7, [("a", .i 1), ("b", .i 2)]⟩] [("b", "a")] [9] = [⟨9, [("b", .i 2)]⟩] ∧
+    renameOf [("x", "a"), ("y", "a")] "a" = "y" := by decide
+
+example : modifyIf [⟨0, [("a", .i 1)]⟩, ⟨1, [("a", .i 2)]⟩] [false, true] "a" [.i 8, .i 9]
+    = [⟨0, [("a", .i 1)]⟩, ⟨1, [("a", .i 9)]⟩] := by decide
+
+example : slice [⟨0, []⟩, ⟨1, []⟩, ⟨2, []⟩, ⟨3, []⟩] 1 9 = [⟨1, []⟩, ⟨2, []⟩, ⟨3, []⟩] ∧
+    slice [⟨0, []⟩, ⟨1, []⟩] 2 1 = [] ∧ mul [⟨0, []⟩, ⟨1, []⟩] 2 = [⟨0, []⟩, ⟨1, []⟩, ⟨0, []⟩, ⟨1, []⟩] := by decide
 
 end DI.C15
